@@ -32,11 +32,13 @@ pub struct Ch<'c> {
     pub permuted: u32,
     /// number of setter-like calls made so far on the builder under construction
     calls: u32,
+    /// size queries made on partially configured builders
+    pub probes: u32,
 }
 
 impl<'c> Ch<'c> {
     fn new(bytes: &'c [u8]) -> Self {
-        Ch { bytes, at: 0, overwrites: 0, owned_after_set: 0, permuted: 0, calls: 0 }
+        Ch { bytes, at: 0, overwrites: 0, owned_after_set: 0, permuted: 0, calls: 0, probes: 0 }
     }
     fn next(&mut self) -> u8 {
         let b = self.bytes.get(self.at).copied().unwrap_or(0);
@@ -57,6 +59,19 @@ impl<'c> Ch<'c> {
     fn flag(&mut self) -> bool {
         self.next() % 3 == 2
     }
+    /// "measure, then go on": a size query on the partially configured builder at this point of the history
+    fn probe<W: RtcpPacketWriter>(&mut self, w: &W) {
+        if self.next() % 6 == 5 {
+            self.probes += 1;
+            let _ = guard(|| w.calculate_size().is_ok());
+        }
+    }
+    fn probe_fci<'f, F: FciBuilder<'f>>(&mut self, f: &F) {
+        if self.next() % 6 == 5 {
+            self.probes += 1;
+            let _ = guard(|| f.calculate_size().is_ok());
+        }
+    }
     fn owned(&mut self) -> bool {
         let o = self.next() % 2 == 1;
         if o && self.calls > 0 {
@@ -68,8 +83,9 @@ impl<'c> Ch<'c> {
 
 /// Run `pending` setters in a history-chosen order; each may first be called with a junk value
 /// (at most twice) that the real call then overwrites.
-fn scalars<B>(mut b: B, ch: &mut Ch, mut pending: Vec<(Box<dyn Fn(B, bool) -> B + '_>, u8)>) -> B {
+fn scalars<B>(mut b: B, ch: &mut Ch, mut pending: Vec<(Box<dyn Fn(B, bool) -> B + '_>, u8)>, probe: fn(&B, &mut Ch)) -> B {
     while !pending.is_empty() {
+        probe(&b, ch);
         let i = ch.pick(pending.len());
         if pending[i].1 < 2 && ch.flag() {
             pending[i].1 += 1;
@@ -97,7 +113,7 @@ fn rb_hist(s: &RbSpec, ch: &mut Ch) -> ReportBlockBuilder {
     ];
     let saved = ch.calls;
     ch.calls = 0;
-    let b = scalars(b, ch, v);
+    let b = scalars(b, ch, v, |_, _| {});
     ch.calls = saved;
     b
 }
@@ -108,6 +124,7 @@ fn sr_hist(s: &SrSpec, ch: &mut Ch) -> SenderReportBuilder {
     let mut pend: Vec<(u8, u8)> = vec![(0, 0), (1, 0), (2, 0), (3, 0), (4, 0)]; // (which, junk count)
     let mut next_block = 0usize;
     loop {
+        ch.probe(&b);
         let opts = pend.len() + usize::from(next_block < s.blocks.len());
         if opts == 0 {
             break;
@@ -144,6 +161,7 @@ fn rr_hist(s: &RrSpec, ch: &mut Ch) -> ReceiverReportBuilder {
     let mut junked = 0;
     let mut next_block = 0usize;
     loop {
+        ch.probe(&b);
         let opts = usize::from(pad_pending) + usize::from(next_block < s.blocks.len());
         if opts == 0 {
             break;
@@ -194,6 +212,14 @@ fn item_hist<'a>(it: &'a ItemSpec, ch: &mut Ch) -> SdesItemBuilder<'a> {
 fn chunk_hist<'a>(c: &'a ChunkSpec, ch: &mut Ch) -> SdesChunkBuilder<'a> {
     let mut b = SdesChunk::builder(c.ssrc);
     for (i, it) in c.items.iter().enumerate() {
+        if ch.next() % 6 == 5 {
+            // the chunk builder's only public size query is a write
+            ch.probes += 1;
+            let _ = guard(|| {
+                let mut scratch = [0u8; 64];
+                b.write_into(&mut scratch).is_ok()
+            });
+        }
         let ib = item_hist(it, ch);
         if ch.next() % 2 == 1 {
             if i > 0 {
@@ -213,6 +239,7 @@ fn sdes_hist<'a>(s: &'a SdesSpec, ch: &mut Ch) -> SdesBuilder<'a> {
     let mut junked = 0;
     let mut next = 0usize;
     loop {
+        ch.probe(&b);
         let opts = usize::from(pad_pending) + usize::from(next < s.chunks.len());
         if opts == 0 {
             break;
@@ -243,6 +270,7 @@ fn bye_hist<'a>(s: &'a ByeSpec, ch: &mut Ch) -> ByeBuilder<'a> {
     let mut reason = (s.reason.is_some(), 0);
     let mut next = 0usize;
     loop {
+        ch.probe(&b);
         let mut opts: Vec<u8> = Vec::new();
         if pad.0 {
             opts.push(0);
@@ -301,7 +329,7 @@ fn app_hist<'a>(s: &'a AppSpec, junk_data: &'a [u8], ch: &mut Ch) -> AppBuilder<
         (Box::new(move |b, j| b.subtype(if j { s.subtype ^ 1 } else { s.subtype })), 0),
         (Box::new(move |b, j| b.data(if j { junk_data } else { &s.data })), 0),
     ];
-    scalars(b, ch, v)
+    scalars(b, ch, v, |b, ch| ch.probe(b))
 }
 
 fn unknown_hist<'a>(s: &'a UnknownSpec, ch: &mut Ch) -> UnknownBuilder<'a> {
@@ -310,7 +338,7 @@ fn unknown_hist<'a>(s: &'a UnknownSpec, ch: &mut Ch) -> UnknownBuilder<'a> {
         (Box::new(move |b, j| b.padding(if j { s.padding.wrapping_add(4) } else { s.padding })), 0),
         (Box::new(move |b, j| b.count(if j { s.count ^ 3 } else { s.count })), 0),
     ];
-    scalars(b, ch, v)
+    scalars(b, ch, v, |b, ch| ch.probe(b))
 }
 
 fn fci_hist(f: &FciSpec, ch: &mut Ch) -> FciHolder<'static> {
@@ -320,6 +348,7 @@ fn fci_hist(f: &FciSpec, ch: &mut Ch) -> FciHolder<'static> {
             let mut order: Vec<u16> = v.clone();
             let mut b = Nack::builder();
             while !order.is_empty() {
+                ch.probe_fci(&b);
                 let i = ch.pick(order.len().min(8));
                 let s = order.remove(i);
                 b = b.add_rtp_sequence(s);
@@ -334,6 +363,7 @@ fn fci_hist(f: &FciSpec, ch: &mut Ch) -> FciHolder<'static> {
         FciSpec::Sli(v) => {
             let mut b = Sli::builder();
             for (a, n, p) in v {
+                ch.probe_fci(&b);
                 b = b.add_lost_macroblock(*a, *n, *p);
             }
             FciHolder::Sli(b)
@@ -343,6 +373,7 @@ fn fci_hist(f: &FciSpec, ch: &mut Ch) -> FciHolder<'static> {
             let mut pend: Vec<(u8, u8)> = vec![(0, 0), (1, 0)];
             let mut calls = 0;
             while !pend.is_empty() {
+                ch.probe_fci(&b);
                 let i = ch.pick(pend.len());
                 let junk = pend[i].1 < 2 && ch.flag();
                 let which = pend[i].0;
@@ -374,6 +405,7 @@ fn fci_hist(f: &FciSpec, ch: &mut Ch) -> FciHolder<'static> {
             // re-adding an SSRC keeps the last sequence: junk sequences may precede the spec's adds
             let mut b = Fir::builder();
             for (s, q) in v {
+                ch.probe_fci(&b);
                 if ch.flag() {
                     ch.overwrites += 1;
                     b = b.add_ssrc(*s, q.wrapping_add(1));
@@ -413,7 +445,9 @@ fn finish<'a, B: RtcpPacketWriter + 'a>(b: B, ch: &mut Ch, wrap: impl FnOnce(B) 
         }
         2 => {
             ch.owned_after_set += 1;
-            Obs.go(&Compound::builder().add_packet(b))
+            let cb = Compound::builder();
+            ch.probe(&cb);
+            Obs.go(&cb.add_packet(b))
         }
         3 => {
             ch.owned_after_set += 1;
@@ -431,6 +465,7 @@ fn fb_hist(s: &FbSpec, ch: &mut Ch) -> <Obs as Visit>::Out {
             let mut b = $b;
             let mut pend: Vec<(u8, u8)> = vec![(0, 0), (1, 0), (2, 0)];
             while !pend.is_empty() {
+                ch.probe(&b);
                 let i = ch.pick(pend.len());
                 let junk = pend[i].1 < 2 && ch.flag();
                 let which = pend[i].0;
@@ -542,7 +577,8 @@ pub(crate) fn c20_oracle(c: &HistCase, st: &mut Stats) -> Verdict {
     st.label_if(ch.overwrites > 0, "a setter is overwritten / an add repeated");
     st.label_if(ch.owned_after_set > 0, "owned variant or wrapper after other fields were set");
     st.label_if(ch.permuted > 0, "setters permuted");
-    if ch.overwrites > 0 || ch.owned_after_set > 0 {
+    st.label_if(ch.probes > 0, "size queried on the partially configured builder");
+    if ch.overwrites > 0 || ch.owned_after_set > 0 || ch.probes > 0 {
         st.nontrivial();
     }
     // canonical construction of the same final configuration
@@ -596,7 +632,7 @@ pub fn c20(tier: Tier) -> Check {
         rule: "cases = (final configuration of one of the 8 builder kinds, history = choice bytes interpreted call by call: order of independent setters, junk value first then overwritten (up to twice per setter), \
                duplicate NACK adds in any order, FIR re-adds (last sequence wins), &str vs String, borrowed vs owned prefix/data, reason vs reason_owned, into_owned before/after the prefix, add_item vs add_item_owned, \
                native_data vs native_data_owned, builder vs builder_owned, bare vs PacketBuilder::from vs one-member CompoundBuilder); oracle: size and bytes (or the error) equal those of the canonical construction of the \
-               final configuration (FIR up to entry order), get_padding as configured; non-trivial = a setter is overwritten or an owned variant / wrapper is used after another field was set",
+               final configuration (FIR up to entry order), get_padding as configured; size queries (calculate_size, or SdesChunkBuilder::write_into) on the partially configured builder at history-chosen points must leave no trace; non-trivial = a setter is overwritten, an owned variant / wrapper is used after another field was set, or the size was queried mid-way",
         assumptions: vec!["the canonical construction (harness/src/drive.rs) is itself checked against the RFC image by C07"],
         legs: vec![
             Box::new(RandomLeg { name: "valid-configs-x-histories", cases: tier.pick(400_000, 2_000_000), make: Box::new(|| hist_case(false)), oracle: c20_oracle }),
